@@ -933,6 +933,29 @@ func ruleC14cPairs(c *Ctx) {
 					paired = true
 				}
 			}
+			// the disjunction computed into a variable: the equal edge of the empty test enters a block whose phi
+			// takes, on another edge, the comparison of the same group with "/"
+			if !paired {
+				for _, ins := range t.eqTo.Instrs {
+					ph, ok := ins.(*ssa.Phi)
+					if !ok {
+						break
+					}
+					for _, e := range ph.Edges {
+						bo, ok := e.(*ssa.BinOp)
+						if !ok || bo.Op != token.EQL {
+							continue
+						}
+						for _, pr := range [][2]ssa.Value{{bo.X, bo.Y}, {bo.Y, bo.X}} {
+							if g, ok := groupOf(pr[0]); ok && g == t.group {
+								if k, isC := constStr(pr[1]); isC && k == "/" {
+									paired = true
+								}
+							}
+						}
+					}
+				}
+			}
 			c.check(paired, name, "an empty remainder and the remainder \"/\" lead to the same decision", p.ipos(t.at),
 				"the test for the empty final group has a twin for \"/\" with the same target",
 				"the final group of the match on the path is tested for being empty here and no test of the same group for \"/\" leads to the same place: `/p` (remainder empty) and `/p/` (remainder \"/\") part at this point")
